@@ -688,9 +688,18 @@ def foreign_schema_stream(ctx):
             if cls is None:
                 continue
             rr = common.rng("C20.foreign.%s.%s" % (module, letter))
-            for k, fill in enumerate((0.0, 0.5, 0.95)):
-                raw = schemaio.gen_record(rr, spec, fill=fill)[0]
+            for k, fill in enumerate((0.0, 0.5, 0.95, 0.96)):
+                raw = schemaio.gen_record(rr, spec, fill=min(fill, 0.95))[0]
                 rec = codec.decode_record(raw)
+                if fill == 0.96:
+                    # every set field takes the longest member of its value set (whatever the draw gave it)
+                    for i_, f_ in enumerate(spec["fields"]):
+                        sc_ = f_.get("scalar") or {}
+                        if f_["shape"] == "scalar" and sc_.get("kind") == "set":
+                            members = [v_[2:] for v_ in sc_.get("values", []) if v_.startswith("s:")]
+                            if members:
+                                rec = rec + [None] * (i_ + 1 - len(rec))
+                                rec[i_] = max(members, key=len)
                 names = [n for n, _f in cls._fields]
                 if "timestamp" in names:
                     i = names.index("timestamp")
